@@ -105,6 +105,7 @@ type Engine struct {
 	uninitReads  map[string]int
 	inInit       bool
 	forkSites    map[string]int
+	raceG        int
 }
 
 type ReplayInput struct {
